@@ -9,7 +9,9 @@ use crate::props::common::*;
 use crate::spec::*;
 
 pub fn cfg() -> GenCfg {
-    GenCfg::full()
+    let mut c = GenCfg::full();
+    c.unsized_tail = true;
+    c
 }
 
 pub fn unit_of(spec: &TypeSpec) -> Unit {
